@@ -564,3 +564,101 @@ def is_supported_typehint_unit(prop):
 
 
 UNITS += [is_supported_typehint_unit("C02")]
+
+
+# ------------------------------------------------------------------------------------- is_pathlike / ActionTypeHint.__init__
+# A value of a path-like type (os.PathLike itself, a class deriving from it, a class *registered* with it as pathlib.Path is, a Union
+# holding one) is the path: it is never replaced by the content of the file it names (enable_path is switched off for such options).
+PL = ["os.PathLike", "class-deriving-from-PathLike", "pathlib.Path(registered with the ABC, not in its MRO)", "str", "int", "Union[str,pathlib.Path]", "Union[str,int]", "List[pathlib.Path]"]
+
+
+def ipl_setup(ctx):
+    k = PL[ctx.choose(len(PL), "typehint")]
+    PLIKE = Rec("class os.PathLike")
+
+    def leaf(name, sub, in_mro):
+        return Rec("hint", attrs={"name": name, "origin": None, "subclass_of_pathlike": sub, "mro": ((PLIKE,) if in_mro else ())})
+    h = {"os.PathLike": leaf("PathLike", True, True), "class-deriving-from-PathLike": leaf("MyPath", True, True), "pathlib.Path(registered with the ABC, not in its MRO)": leaf("Path", True, False),
+         "str": leaf("str", False, False), "int": leaf("int", False, False)}
+    pp = h["pathlib.Path(registered with the ABC, not in its MRO)"]
+    h["Union[str,pathlib.Path]"] = Rec("hint", attrs={"origin": "Union", "__args__": (h["str"], pp)})
+    h["Union[str,int]"] = Rec("hint", attrs={"origin": "Union", "__args__": (h["str"], h["int"])})
+    h["List[pathlib.Path]"] = Rec("hint", attrs={"origin": "list", "__args__": (pp,), "subclass_of_pathlike": False, "mro": ()})
+    calls = {"get_typehint_origin": lambda c, a, kw: a[0].attrs.get("origin"),
+             "is_subclass": lambda c, a, kw: a[1] is PLIKE and bool(a[0].attrs.get("subclass_of_pathlike")),
+             # siblings a rewrite may reach for: issubclass looks at ABC registrations, the MRO does not
+             "inspect.isclass": lambda c, a, kw: a[0].attrs.get("origin") is None, "inspect.getmro": lambda c, a, kw: (a[0],) + tuple(a[0].attrs.get("mro", ())),
+             "is_pathlike": lambda c, a, kw: (c.event("member", a[0]), bool(a[0].attrs.get("subclass_of_pathlike")))[1]}
+    consts = {"Union": "Union", "os": Rec("module os", attrs={"PathLike": PLIKE})}
+    return Setup(env={"typehint": h[k]}, calls=calls, consts=consts, data=dict(k=k))
+
+
+def ipl_post(ctx, st, result):
+    k = st.data["k"]
+    want = k in ("os.PathLike", "class-deriving-from-PathLike", "pathlib.Path(registered with the ABC, not in its MRO)", "Union[str,pathlib.Path]")
+    ctx.oblige("post", f"path-like-iff-issubclass(hint, os.PathLike)(ABC registrations count: pathlib.Path)-or-a-Union-with-such-a-member[{k}]", bool(result) is want)
+
+
+def is_pathlike_unit(prop):
+    return Unit(prop, "jsonargparse._typehints:is_pathlike", ipl_setup, ipl_post, None, expect_cover=("return",),
+                trusted=["is_subclass(hint, base) as issubclass (ABC registrations included)", "the recursive call by contract"])
+
+
+def ath_setup(ctx):
+    mode = ["typehint-given", "copy(_typehint in kwargs)", "neither"][ctx.choose(3, "construction")]
+    hk = ["supported", "unsupported", "Union-with-an-unsupported-member", "path-like"][ctx.choose(4, "typehint")] if mode == "typehint-given" else "-"
+    enable_path = ctx.choose(2, "enable_path") == 1
+    NONE = Rec("NoneType")
+    good, bad = Rec("hint good", attrs={"ok": True}), Rec("hint bad", attrs={"ok": False})
+    union = Rec("hint Union", attrs={"ok": True, "origin": "Union", "__args__": (good, NONE, bad)})
+    hint = {"supported": good, "unsupported": bad, "Union-with-an-unsupported-member": union, "path-like": Rec("hint path", attrs={"ok": True, "pathlike": True}), "-": None}[hk]
+    rebuilt = []
+    self = Rec("ActionTypeHint", attrs={"default": Rec("declared default")})
+    self.methods.update({"__setattr__": lambda c, s_, a, k: s_.attrs.__setitem__(a[0], a[1]),
+                         "is_supported_typehint": lambda c, s_, a, k: a[0].attrs["ok"] and k.get("full") is True,
+                         "supports_append": lambda c, s_, a, k: ("supports-append", a[0]), "normalize_default": lambda c, s_, a, k: ("normalised", a[0])})
+    kw = {"logger": Rec("logger", methods={"debug": lambda c, s_, a, k: None})}
+    copied = Rec("hint copied", attrs={"ok": True})
+    if mode.startswith("copy"):
+        kw.update({"_typehint": copied, "_enable_path": Rec("copied enable_path"), "dest": "x"})
+    calls = {"get_typehint_origin": lambda c, a, k: a[0].attrs.get("origin"), "is_pathlike": lambda c, a, k: bool(a[0].attrs.get("pathlike")),
+             "typehint_metavar": lambda c, a, k: ("metavar-of", a[0]), "super": lambda c, a, k: Rec("super()", methods={"__init__": lambda c2, s2, a2, k2: c2.event("Action.__init__", dict(k2))})}
+    consts = {"Union": Rec("Union", methods={"__getitem__": lambda c, s_, a, k: (rebuilt.append(a[0]), Rec("hint Union(rebuilt)", attrs={"ok": True, "origin": "Union", "__args__": a[0]}))[1], "__eq__": lambda c, s_, a, k: a[0] == "Union"}),
+              "NoneType": NONE}
+    return Setup(env={"self": self, "typehint": hint, "enable_path": enable_path, "kwargs": kw}, calls=calls, consts=consts,
+                 data=dict(mode=mode, hk=hk, enable_path=enable_path, hint=hint, good=good, bad=bad, NONE=NONE, self_=self, copied=copied, kw=kw, rebuilt=rebuilt))
+
+
+def ath_post(ctx, st, result):
+    d = st.data
+    a = d["self_"].attrs
+    tag = f"[{d['mode']},{d['hk']},enable_path={d['enable_path']}]"
+    if d["mode"] == "typehint-given":
+        ctx.oblige("post", "accepted=>the-type-hint-is-supported(with its parameters)" + tag, d["hk"] != "unsupported")
+        if d["hk"] == "Union-with-an-unsupported-member":
+            ok = len(d["rebuilt"]) == 1 and tuple(d["rebuilt"][0]) == (d["good"], d["NONE"]) and a["_typehint"].attrs["__args__"] == (d["good"], d["NONE"])
+            ctx.oblige("post", "a-Union's-unsupported-members-are-dropped(the supported ones and None stay,in order)" + tag, ok)
+        else:
+            ctx.oblige("post", "the-hint-is-stored-as-given" + tag, a["_typehint"] is d["hint"])
+        want = False if d["hk"] == "path-like" else d["enable_path"]
+        ctx.oblige("post", "a-value-is-loaded-from-the-file-it-names-only-if-asked(enable_path)-and-never-for-a-path-like-type(there the value is the path)" + tag, a["_enable_path"] is want)
+    else:
+        ctx.oblige("post", "accepted=>the-copy-carries-_typehint" + tag, d["mode"].startswith("copy"))
+        ev = [e for e in ctx.events if e[0] == "Action.__init__"]
+        ok = a.get("_typehint") is d["copied"] and a.get("_enable_path") is not None and a["_enable_path"].cls == "copied enable_path" and a.get("sub_add_kwargs") == {} and len(ev) == 1 \
+            and "_typehint" not in ev[0][1] and "_enable_path" not in ev[0][1] and ev[0][1].get("metavar") == ("metavar-of", d["copied"]) and ev[0][1].get("dest") == "x"
+        ctx.oblige("post", "the-action-proper-is-built-from-the-prototype's-hint-and-path-setting(not handed to argparse),with-own-empty-sub_add_kwargs-and-a-metavar-for-the-hint" + tag, ok)
+        ctx.oblige("post", "the-declared-default-is-stored-in-its-normal-form;appendability-is-that-of-the-hint" + tag, a.get("default") == ("normalised", a.get("default")[1] if isinstance(a.get("default"), tuple) else None) and a.get("_supports_append") == ("supports-append", d["copied"]))
+
+
+def ath_raises(ctx, st, exc):
+    d = st.data
+    ctx.oblige("raises", f"refused=>ValueError:an-unsupported-type-hint,or-neither-a-hint-nor-a-prototype's-hint[{d['mode']},{d['hk']}]", exc.cls == "ValueError" and (d["hk"] == "unsupported" or d["mode"] == "neither"))
+
+
+def typehint_init_unit(prop):
+    return Unit(prop, "jsonargparse._typehints:ActionTypeHint.__init__", ath_setup, ath_post, ath_raises, expect_cover=("return", "raise:ValueError"),
+                trusted=["is_supported_typehint, is_pathlike, normalize_default: their own units", "argparse.Action.__init__ (super()) stores the keywords", "typehint_metavar only produces help text"])
+
+
+UNITS += [is_pathlike_unit("C20"), typehint_init_unit("C20")]
